@@ -56,7 +56,7 @@ class Gen:
         I = [[d[0], o[0], o[1]], [o[0], d[1], o[2]], [o[1], o[2], d[2]]]
         return dict(m=m, c=c, I=I)
     JOINTS = ["revx", "revy", "revz", "rev", "pris", "axis_hel", "axis_rot", "axis_tr", "sph", "ezyx", "exyz", "eyxz", "ezxy", "txyz",
-              "float", "emu", "crevx", "cezyx", "crztx", "fixed"]
+              "float", "emu", "emu_canon", "crevx", "cezyx", "crztx", "fixed"]
     def joint(self, kind):
         """returns (text, dof, list of coordinate kinds: 'a' angle, 'e' euler-middle, 't' translation, 's' spherical-xyz)"""
         r = self.r
@@ -95,6 +95,22 @@ class Gen:
                 else:
                     axes.append([Fr(0)] * 3 + trs.pop()); kinds.append("t")
             return "emu %d " % k + " ".join(f6(a) for a in axes), kinds
+        if kind == "emu_canon":
+            # axis lists made of the exact coordinate axes, in patterns a loader or AddBody might special-case:
+            # a permuted translation or rotation triple, pairs, the floating-base pattern and a permutation of it
+            E = [[Fr(1), Fr(0), Fr(0)], [Fr(0), Fr(1), Fr(0)], [Fr(0), Fr(0), Fr(1)]]
+            tr = lambda i: [Fr(0)] * 3 + E[i]
+            ro = lambda i: E[i] + [Fr(0)] * 3
+            pat = r.choice(["t3", "r3", "t2", "r2", "float", "floatperm", "t3r1"])
+            p3 = [0, 1, 2]; r.shuffle(p3)
+            if pat == "t3": axes = [tr(i) for i in p3]; kinds = ["t"] * 3
+            elif pat == "r3": axes = [ro(i) for i in p3]; kinds = ["a", "e", "a"]
+            elif pat == "t2": axes = [tr(i) for i in p3[:2]]; kinds = ["t"] * 2
+            elif pat == "r2": axes = [ro(i) for i in p3[:2]]; kinds = ["a", "a"]
+            elif pat == "float": axes = [tr(0), tr(1), tr(2), ro(2), ro(1), ro(0)]; kinds = ["t"] * 3 + ["a", "e", "a"]
+            elif pat == "floatperm": q3 = [0, 1, 2]; r.shuffle(q3); axes = [tr(i) for i in p3] + [ro(i) for i in q3]; kinds = ["t"] * 3 + ["a", "e", "a"]
+            else: axes = [tr(i) for i in p3] + [ro(r.randrange(3))]; kinds = ["t"] * 3 + ["a"]
+            return "emu %d " % len(axes) + " ".join(f6(a) for a in axes), kinds
         raise ValueError(kind)
     # ---- a model
     def model(self, nmin=1, nmax=6, allow_fixed=True, allow_custom=True, named=True, kinds=None):
@@ -118,6 +134,7 @@ class Gen:
             elif topo == "chain": parent = str(k - 1) if r.random() < 0.9 else "prev"
             else: parent = "base" if r.random() < 0.15 else str(r.randrange(k))
             jt, ck = self.joint(kind)
+            if kind == "emu_canon": kind = "emu"     # same construction call, axes taken from the coordinate axes
             massless = (kind != "fixed" and r.random() < 0.08 and k < n - 1)
             b = self.body(massless)
             E = self.rot(); rr = [self.dy(-1, 1) for _ in range(3)]
@@ -739,13 +756,14 @@ class Gen:
         v3 = lambda v: "{%s}" % ", ".join(R(x) for x in v)
         m3 = lambda M: "{%s}" % ", ".join(v3(row) for row in M)
         n = r.randint(1, 6)
-        pool = ["axis_rot", "axis_tr", "axis_hel", "emu", "sph", "ezyx", "exyz", "eyxz", "txyz", "float", "fixed", "axis_rot"]
+        pool = ["axis_rot", "axis_tr", "axis_hel", "emu", "emu_canon", "sph", "ezyx", "exyz", "eyxz", "txyz", "float", "fixed", "axis_rot"]
         nodes = []
         for k in range(n):
             kind = r.choice(pool)
             if k == 0 and kind == "fixed" and n == 1: kind = "axis_rot"
             parent = -1 if k == 0 else (r.randrange(k) if r.random() < 0.85 else -1)
             jt, ck = self.joint(kind)
+            if kind == "emu_canon": kind = "emu"
             nodes.append(dict(kind=kind, parent=parent, E=self.rot(), r=[self.dy(-1, 1) for _ in range(3)], body=self.body(), jt=jt, ck=ck, nm=2 + k))
             self.count("joint_kinds", kind)
         dangling = (r.random() < 0.15)          # one frame names a parent that this file does not define
